@@ -67,11 +67,13 @@ def main():
     if "--only" in args:
         only = set(args[args.index("--only") + 1].split(","))
     from mutants import MUTANTS
+    for_pid = args[args.index("--for") + 1] if "--for" in args else None
+    out_path = args[args.index("--out") + 1] if "--out" in args else None
     scratch = tempfile.mkdtemp(prefix="zvt-selftest-", dir=os.environ.get("ZVT_SCRATCH_PARENT", "/var/tmp"))
     evdir = os.path.join(scratch, "_evidence")
     tree = os.path.join(scratch, "repo")
     results = {"mutants": {}, "seeds": {}, "started": time.strftime("%Y-%m-%dT%H:%M:%SZ", time.gmtime())}
-    rp = os.path.join(V, "selftest", "RESULTS.json")
+    rp = out_path or os.path.join(V, "selftest", "RESULTS.json")
     if only and os.path.exists(rp):
         old = json.load(open(rp))
         results["mutants"] = old.get("mutants", {})
@@ -82,7 +84,7 @@ def main():
         subprocess.check_call(["rsync", "-a", "--exclude", "target", "--exclude", ".git", REPO + "/", tree + "/"])
         env = dict(os.environ, ZVT_REPO=tree, ZVT_EVIDENCE_DIR=evdir, CARGO_NET_OFFLINE="true")
         # baseline: the scratch copy itself must be clean
-        if not only:
+        if not only and not for_pid:
             base, err = evaluate(env, IDS)
             results["baseline"] = base if base is not None else {"error": err}
             print("baseline", results["baseline"], flush=True)
@@ -93,6 +95,8 @@ def main():
                 name, kind, owners, path, old, new = m[:6]
                 nth = m[6] if len(m) > 6 else None
                 if only and name not in only:
+                    continue
+                if for_pid and not (kind == "fire" and for_pid in owners):
                     continue
                 fp = os.path.join(tree, path)
                 src = open(fp).read()
@@ -108,7 +112,7 @@ def main():
                     idx = src.index(old, idx + 1)
                 open(fp, "w").write(src[:idx] + new + src[idx + len(old):])
                 try:
-                    checks = IDS if (kind == "silent" or all_checks) else owners
+                    checks = [for_pid] if for_pid else (IDS if (kind == "silent" or all_checks) else owners)
                     res, err = evaluate(env, checks)
                 finally:
                     open(fp, "w").write(src)
@@ -118,7 +122,9 @@ def main():
                     ok_all = False
                     continue
                 fired = sorted(res)
-                if kind == "fire":
+                if for_pid:
+                    met = for_pid in res and res[for_pid]["violations"] > 0
+                elif kind == "fire":
                     met = any(c in res and res[c]["violations"] > 0 for c in owners)
                 else:
                     met = not res
@@ -138,6 +144,8 @@ def main():
                 if os.path.exists(mp):
                     meta = json.load(open(mp))
                 prop = meta.get("property") or s.split("-")[0]
+                if for_pid and prop != for_pid:
+                    continue
                 a = sh(["git", "apply", "--unsafe-paths", "--directory", tree, pf], cwd="/")
                 if a.returncode != 0:
                     a = sh(["patch", "-p1", "-s", "-i", pf], cwd=tree)
@@ -147,7 +155,7 @@ def main():
                     ok_all = False
                     continue
                 try:
-                    res, err = evaluate(env, IDS)
+                    res, err = evaluate(env, [for_pid] if for_pid else IDS)
                 finally:
                     sh(["patch", "-p1", "-R", "-s", "-i", pf], cwd=tree)
                 if res is None:
@@ -159,7 +167,7 @@ def main():
                 ok_all = ok_all and met
                 print(s, "ok" if met else "UNMET", {c: v["rules"][:3] for c, v in res.items()}, flush=True)
                 json.dump(results, open(rp, "w"), indent=1, sort_keys=True)
-        if "--seeds-only" not in args and "--mutants-only" not in args or "--refactors-only" in args:
+        if ("--seeds-only" not in args and "--mutants-only" not in args or "--refactors-only" in args) and not for_pid:
             rd = os.path.join(V, "selftest", "refactors")
             results.setdefault("refactors", {})
             for s in sorted(os.listdir(rd)) if os.path.isdir(rd) else []:
